@@ -882,6 +882,9 @@ func (t *streamableHTTPClientTransport) sendResponseToServer(response interface{
 		t.logger.Errorf("Error creating HTTP request for response: %v", err)
 		return
 	}
+	if len(t.path) != 0 {
+		httpReq.URL.Path = t.path
+	}
 
 	httpReq.Header.Set("Content-Type", "application/json")
 
@@ -895,6 +898,13 @@ func (t *streamableHTTPClientTransport) sendResponseToServer(response interface{
 	// Add session ID if available
 	if t.sessionID != "" {
 		httpReq.Header.Set(httputil.SessionIDHeader, t.sessionID) // Use correct MCP protocol header: Mcp-Session-Id.
+	}
+
+	if t.client != nil {
+		if err := t.client.applyHTTPBeforeRequest(ctx, httpReq); err != nil {
+			t.logger.Errorf("HTTP before-request failed for response: %v", err)
+			return
+		}
 	}
 
 	var resp *http.Response
